@@ -507,6 +507,23 @@ func (C11) Judge(c *Ctx, sc *Scenario) []Violation {
 		case 1:
 			c.Count("outcome.error")
 		}
+		if v := sc.MetaString("special"); v != "" {
+			c.Count("probe.adversarial_legal_input." + v)
+		}
+		if v := sc.MetaString("input"); v != "" {
+			c.Count("probe.input_class." + v)
+		}
+		if sc.NoHooks {
+			c.Count("probe.split_under_descriptor_exhaustion")
+		}
+		if out.Exit == 0 && len(out.Stdout) > 1<<16 {
+			c.Count("probe.output_over_64KiB")
+		}
+		for _, a := range sc.Argv {
+			if strings.HasPrefix(a, "-") && !strings.HasPrefix(a, "--expression") && !strings.HasPrefix(a, "--from-file") {
+				c.Count("flag." + strings.SplitN(a, "=", 2)[0])
+			}
+		}
 		if ds, ok := sc.Meta["damage"].([]damage); ok {
 			for _, d := range ds {
 				c.Count("fired.stored." + d.Kind)
